@@ -17,7 +17,7 @@ ASSUMPTIONS = [
     "the annotation of a fused layer is compared with the reference merge only when ALL annotated blockwise layers of the stack ended up in ONE fused layer (otherwise the grouping chosen by the optimizer is an implementation decision)",
 ]
 
-PRIORITY = [None, 1, 2]
+PRIORITY = [None, -1, 0, 2]
 RETRIES = [None, 0, 3]
 RESOURCES = [None, {"a": 1}, {"a": 2, "b": 1}]
 WORKERS = [None, ["w1"], ["w1", "w2"], ["w2"]]
@@ -26,7 +26,7 @@ ALLOW = [None, True, False]
 
 def RULE(tier):
     return (
-        "(a) _fuse_annotations on ALL ordered pairs (and all triples of a 24-element sub-alphabet) of the 324 annotation dicts over priority{-,1,2} x retries{-,0,3} x "
+        "(a) _fuse_annotations on ALL ordered pairs (and all triples of a 24-element sub-alphabet) of the 432 annotation dicts over priority{-,-1,0,2} x retries{-,0,3} x "
         "resources{-,{a:1},{a:2,b:1}} x workers{-,[w1],[w1,w2],[w2]} x allow_other_workers{-,T,F}; (b) EVERY sequence of <= 3 blockwise steps from {elementwise, transpose, "
         "add a second root array, broadcast against a 1-block row, new axis, concatenate=True axis reduction, outer-product contraction} on (2,4) arrays with EVERY chunking "
         "(numblocks <= 2x2) and two root kinds (from_array, ones), annotated per step: optimize_blockwise + fuse_roots + full array optimisation must compute the NumPy values, "
@@ -151,8 +151,8 @@ def apply_da(step, d, aux, root_kind):
 
 
 ANN_CYCLE = [
-    {"priority": 1, "retries": 0},
-    {"priority": 2, "resources": {"a": 1}, "workers": ["w1", "w2"]},
+    {"priority": -7, "retries": 0},
+    {"priority": 0, "resources": {"a": 1}, "workers": ["w1", "w2"]},
     {"retries": 3, "resources": {"a": 2, "b": 1}, "workers": ["w2"], "allow_other_workers": False},
     {},
 ]
@@ -317,8 +317,8 @@ def run_shard(shard, ctx):
                 if got != want:
                     bad = sorted(k for k in set(got) | set(want) if got.get(k) != want.get(k))
                     ctx.violation(f"ann:wrong-merge:{'+'.join(bad)}", case, f"_fuse_annotations({a!r}, {b!r}) = {got!r}, reference {want!r}")
-            if i % 14 == 0:
-                sub = ds[::14]
+            if i % 18 == 0:
+                sub = ds[::18]
                 for b, c in itertools.product(sub, repeat=2):
                     case = ("ann3", i, ds.index(b), ds.index(c))
                     ctx.case(case, nontrivial=True)
